@@ -45,10 +45,15 @@ class P(FlowFidelity):
         if len(tpls) >= 2 and rng.random() < 0.25:
             redefined = tpls[-1][0].tid
             tm.tid = redefined
+        # (every fifth base: a template whose records are exactly FOUR octets long, its data set last in the message and without padding:
+        # what that set yields must not depend on whether something follows it)
+        t4 = Tpl(401, [], [(rng.choice([8, 12, 10, 14]), 0, 4)]) if rng.random() < 0.2 else None
+        if t4 is not None:
+            tpls = tpls + [(t4, False)]
         tsets = [g.enc_set(g.tpl_set_id(o), g.enc_tpl(t, o)) for t, o in tpls] + [g.enc_set(g.tpl_set_id(tm_opts), g.enc_tpl(tm, tm_opts))]
         m1 = g.enc_msg(tsets)
         dsets = []
-        usable = [tp for tp in tpls if tp[0].tid != redefined]
+        usable = [tp for tp in tpls if tp[0].tid != redefined and tp[0] is not t4]
         for _ in range(rng.choice([1, 2, 3])):
             t, o = rng.choice(usable)
             body = b""
@@ -61,6 +66,8 @@ class P(FlowFidelity):
                     w = (fake + w)[:len(w)] if rng.random() < 0.5 else (w[:len(w) - len(fake)] + fake)[-len(w):]
                 body += w
             dsets.append(g.enc_set(t.tid, body))
+        if t4 is not None:
+            dsets.append(g.enc_set(401, b"".join(g.rand_record(t4)[0] for _ in range(3))))
         self.last_tsets, self.last_tpls = tsets, tpls
         return addr, m1, dsets, tm
 
